@@ -15,7 +15,7 @@
     regression examples. *)
 From Coq Require Import List ZArith Bool.
 From V Require Import Gen.Params Lib.Hex SendStream.Model SendStream.ProofsBase SendStream.ProofsInv
-  SendStream.ProofsCov SendStream.ProofsOut SendStream.ProofsFin SendStream.ProofsCnt SendStream.ProofsDone SendStream.Theorems StreamE2E.Model StreamE2E.Compose
+  SendStream.ProofsCov SendStream.ProofsOut SendStream.ProofsFin SendStream.ProofsCnt SendStream.ProofsDone SendStream.ProofsLive SendStream.Theorems StreamE2E.Model StreamE2E.Compose
   StreamE2E.DgModel StreamE2E.DgProofs StreamE2E.PackModel StreamE2E.PackProofs
   StreamE2E.Concrete StreamE2E.NetPkt StreamE2E.EndToEnd StreamE2E.NetExample.
 Import ListNotations.
@@ -206,6 +206,58 @@ Theorem C01_completion_fires :
   snd (newly_completed s) = true /\ completed (fst (newly_completed s)) = true.
 Proof. exact newly_completed_fires. Qed.
 Print Assumptions C01_completion_fires.
+
+(** Liveness, as far as the model carries it (claim (e); PARTIAL — see below).  Take ANY history of the
+    sender (any interleaving of writes, pops with any budgets up to a packet, acknowledgements, loss
+    declarations — finitely many faults —, window updates, ...), after which the stream is closed and neither
+    reset nor torn down.  If the peer then grants credit beyond what is still unsent (MAX_STREAM_DATA /
+    MAX_DATA above fcSent + pending), a number of full-size popStreamFrame calls EQUAL to the explicit measure
+    [mu] of owed work (queued retransmission bytes and frames, unsent bytes, FIN) hands out everything: the
+    retransmission queue is empty, nothing is buffered, the FIN is sent; and when the frames then in flight
+    are acknowledged, every byte of W is covered by an acknowledged frame, the stream reports completion, and
+    it has done so exactly once over the whole history.
+    Partial for the completion clause of C01: that the connection DOES keep calling popStreamFrame (run loop,
+    framer, congestion window, pacer), that lost packets ARE declared lost (loss timer / PTO) and that acks
+    arrive "when the path is not dead longer than the idle timeout" is behaviour of the runtime, exercised by
+    the simulated connections of units simstream / simstreamx / simdgram / simtrace (monitor hang), not proved. *)
+Theorem C01_sender_drains_partial :
+  forall (sid0 : Z) (rsa : bool) (swin cwin : Z) (ops : list op) (L1 L2 : Z),
+  let s0 := init sid0 rsa swin cwin in
+  let s := run_state s0 ops in
+  (forall mb, In (OPop mb) ops -> mb <= ssMaxPacketBufferSize) ->
+  resetErr s = None -> shutdown s = false -> finishedWriting s = true ->
+  fcSent s + pend s < L1 -> ccSent s + pend s < L2 ->
+  exists k a, Z.of_nat k = mu s /\
+    let ops' := ops ++ [OWin L1; OConnWin L2] ++ repeat (OPop ssMaxPacketBufferSize) k ++ repeat (OAcked 0) a in
+    let s' := run_state s0 ops' in
+    retransQ s' = [] /\ outstanding s' = [] /\ nextFrame s' = None /\ dataForWriting s' = [] /\ finSent s' = true /\
+    W s' = W s /\ writeOffset s' = zlen (W s) /\
+    (forall i, 0 <= i < zlen (W s) -> covered i (acked s')) /\
+    completed s' = true /\ done_calls (snd (run s0 ops')) = 1.
+Proof. exact sender_drains. Qed.
+Print Assumptions C01_sender_drains_partial.
+
+(** every single full-size pop makes progress while anything is owed and credit is left: it returns a frame
+    and the measure of owed work strictly decreases (no silent stall at the sender) *)
+Theorem C01_sender_pop_progress :
+  forall s, DrainInv s -> 0 < mu s ->
+  let r := do_pop ssMaxPacketBufferSize s in
+  DrainInv (fst r) /\ mu (fst r) < mu s /\ o_frame (snd r) <> None /\ W (fst r) = W s.
+Proof. exact pop_progress. Qed.
+Print Assumptions C01_sender_pop_progress.
+
+(** non-vacuity: 10 bytes written and closed against a window of 5; the first frame is declared lost; then
+    credit arrives: 13 units of work are owed, 13 pops (most of them idle) and 2 acks complete the stream *)
+Example C01_sender_drains_nonvacuous :
+  let ops := [OWrite [1; 2; 3; 4; 5; 6; 7; 8; 9; 10]; OClose; OPop 1452; OLost 0] in
+  let s := run_state (init 4 false 5 5) ops in
+  let s' := run_state (init 4 false 5 5)
+              (ops ++ [OWin 100; OConnWin 100] ++ repeat (OPop ssMaxPacketBufferSize) 13 ++ repeat (OAcked 0) 2) in
+  resetErr s = None /\ shutdown s = false /\ finishedWriting s = true /\ fcSent s + pend s < 100 /\ mu s = 13 /\
+  retransQ s = [mkF 0 [1; 2; 3; 4; 5] false] /\ nextFrame s = Some (5, [6; 7; 8; 9; 10]) /\ completed s = false /\
+  acked s' = [mkF 0 [1; 2; 3; 4; 5] false; mkF 5 [6; 7; 8; 9; 10] true] /\ completed s' = true.
+Proof. vm_compute. repeat split. Qed.
+Print Assumptions C01_sender_drains_nonvacuous.
 
 (** Regression examples: the three witnesses that the faithful model of the UNREPAIRED code
     produced (and the harness replays on the implementation as scripted cases -1, -4, -5 of unit
